@@ -1,12 +1,13 @@
 \* stage C: recorded executions of a 5-node SvsInst, Mode "open", deviations off (pass 1).
 \* TRACE_FILE=<ndjson> in the environment. harness/props/c18.py generates this (and the
-\* deviations-on variant, Dev = {"aggLocal","noSeq"}) into build/.
+\* deviations-on variant, Dev = {"aggLocal","noSeq","postponed"}) into build/.
 SPECIFICATION TSpec
 CONSTANTS
   NodeOrder <- Nodes5
   MaxSeq = 24
   InitSeqs = {0}
   Packets = {}
+  PrePackets = {}
   Mode = "open"
   Dev = {}
   SupBase = 1
@@ -15,6 +16,7 @@ CONSTANTS
   MaxT = 64
   MaxBurst = 3
   MaxReact = 2
+  MaxPre = 3
   MaxEv = 0
   TickEnds = FALSE
   UseHint = TRUE
@@ -28,6 +30,7 @@ PROPERTY EmitsOnlyLocal
 PROPERTY CallbackPublishEmits
 PROPERTY OutdatedStartsSuppression
 PROPERTY HeardIsMerge
+PROPERTY PublishThenRecvAnnounces
 CONSTRAINT Mark
 POSTCONDITION Post
 VIEW TView
